@@ -245,6 +245,7 @@ def random_track(rng, n_groups, *, max_tick_gap=400, res=192, big=False, phrases
         t = rng.randrange(10**7)
     nls = []
     ticks = []
+    prev_gl = None
     for g in range(n_groups):
         combo = rng.choice(combos)
         flags_only = rng.random() < 0.04            # the empty lane subset: a tick that carries flag lines only
@@ -269,7 +270,14 @@ def random_track(rng, n_groups, *, max_tick_gap=400, res=192, big=False, phrases
         nfl = len(idxs) + int(forced) + int(tap) + dup
         order = list(range(nfl))
         rng.shuffle(order)
-        nls += group_lines(t, combo, lens, forced, tap, order, dup_flags=dup)
+        gl = group_lines(t, combo, lens, forced, tap, order, dup_flags=dup)
+        # round 10 (seeded/C04j-repeated-block): the previous tick group written again, line for line, on this tick (rhythm
+        # parts repeat one chord - or one forced note - many times in a row): what a note IS follows from its own lines,
+        # whether it is a HOPO from the note before it as well
+        if g > 0 and prev_gl and rng.random() < 0.08:
+            gl = [("N", t, ln[2], ln[3]) for ln in prev_gl]
+        prev_gl = gl
+        nls += gl
         ticks.append(t)
         if rng.random() < unit_gap_p:
             gap = 1
